@@ -134,6 +134,56 @@ theorem bucket_eq_filter (lib : List Perm) (b : ServerKey × List Perm) (hb : b 
     b.2 = lib.filter (fun q => keyOf q = b.1) :=
   (group_props lib).2.2 b hb
 
+
+
+/-- An accepted input is well-formed in every respect `WellFormed` lists except that relevant
+lists may repeat a value no case meets: suites named (distinctly) and non-empty, no suite taking
+part misconfigured, tests named / typed / with service and method given together wherever the
+suite meets a case, no two permutations with the same name.
+(Full statement not proved: `WellFormed join suites cases mode ∧ specList join suites cases mode ≠ []
+→ ∃ lib, newLibrary join suites (inSet cases) mode = .ok lib`, i.e. that `WellFormed` is also
+sufficient for acceptance; the traversal orders of `newLibrary` and `specList` differ, and the
+permutation argument relating them is missing. The correspondence run checks this direction on
+every well-formed input it generates.) -/
+theorem accepted_wellformed_partial (join : List String → String) (hj : ∀ l, join ("" :: l) = join l)
+    (suites : List Suite) (cases : List Case) (mode : Mode) (lib : List Perm)
+    (h : newLibrary join suites (inSet cases) mode = .ok lib) :
+    (∀ s ∈ suites, s.name ≠ "" ∧ s.tests ≠ []) ∧
+    (suites.map (·.name)).Nodup ∧
+    (∀ s ∈ suites, ModeAdmits s mode → ¬ Misconfigured s) ∧
+    (∀ s ∈ suites, ∀ c ∈ cases, Admits s mode c →
+      ∀ t ∈ s.tests, t.name ≠ "" ∧ t.st ≠ .unspec ∧ (t.st = c.s → ServiceMethodOk t)) ∧
+    (lib.map (·.fullName)).Nodup ∧
+    specList join suites cases mode ≠ [] := by
+  obtain ⟨_, b, c, d, e, f⟩ := newLibrary_ok join suites _ mode lib h
+  refine ⟨d, e, ?_, ?_, b, ?_⟩
+  · intro s hs hm hx
+    have := (f s hs hm).1
+    rw [(misconfigured_iff s).2 hx] at this
+    cases this
+  · intro s hs c' hc ha
+    obtain ⟨hm, hc1⟩ := (admits_iff s mode c').1 ha
+    exact (f s hs hm).2 c' hc1 (by simpa [inSet] using hc)
+  · intro hx
+    cases lib with
+    | nil => exact c rfl
+    | cons q _ =>
+      have := (library_eq_spec join hj suites cases mode _ h q).1 (by simp)
+      rw [hx] at this
+      simp at this
+
+/-- `allPermutations(client, server)` returns the library plus, for each gRPC reference peer in
+use, the applicable permutations under a name with the peer marker inserted before the test's
+own name. -/
+theorem all_permutations_spec (client server : Bool) (lib : List Perm) :
+    (allPermutations client server lib).map (·.fullName) = specAllNames client server lib :=
+  allPermutations_names client server lib
+
+/-- which permutations run against the gRPC peers -/
+theorem grpc_peer_applicable (client server : Bool) (q : Perm) :
+    grpcApplicable client server q = true ↔ GrpcPeerApplicable client server q :=
+  grpcApplicable_iff client server q
+
 /-- The expansion depends on the slice of config cases only through membership: two slices with
 the same members (any order, any repetitions) give the same library. -/
 theorem expansion_deterministic (join : List String → String) (suites : List Suite)
